@@ -1,11 +1,13 @@
 //! Verification harness for SwiftMTMessage: replays TLC-generated behaviours against the
 //! library built from /repo's working tree and records traces for TLC to validate.
 
+mod c12;
 mod c16;
 mod c17;
 mod plugins;
 mod msgcheck;
 mod registry;
+mod session;
 mod tok;
 mod util;
 
@@ -20,6 +22,7 @@ fn main() {
         "tracker" => c16::run_tracker(rest),
         "split" => c16::run_split(rest),
         "classify" => c17::run(rest),
+        "dispatch" => c12::run(rest),
         "parse1" => {
             // parse one full message (file) as type --mt and print the outcome
             let mt = util::arg(rest, "--mt").expect("--mt");
